@@ -83,6 +83,14 @@ def leaf(t, rng):
     if t == 'unit':
         u = rng.choice(UNITS)
         return u, 1 * u
+    if t == 'qarr':
+        u = rng.choice(UNITS)
+        a = rng.choice([np.array([1.5, -2.0]), np.array([3, 4])])
+        return a * u, [x * u for x in a.tolist()]
+    if t == 'qarr2':
+        u = rng.choice(UNITS)
+        a = rng.choice([np.array([[1.5, -2.0], [0.25, 8.0]]), np.array([[1, 2], [3, 4]])])
+        return a * u, [[x * u for x in row] for row in a.tolist()]
     if t == 'proc':
         return PROC, 'PSTR'
     if t == 'func':
